@@ -153,6 +153,59 @@ func run(w *core.Worker, c Case) {
 				}
 			}
 			nontrivial = c.Calls >= 2
+		case "OnceExp":
+			// Once on an expiring cache (virtual time): "a single time for as long as its cache
+			// entry lives" - after the entry expired (purged by a cleanup goroutine or not) the next
+			// call runs the callback again, ONCE, and memoizes afresh. c.N = default expiry in ms
+			// (<= 0: never), c.DelayMs = cleanup interval in ms (0: none), c.WorkMs = gaps between calls in us.
+			var failSig, failMsg string
+			synctest.Test(w.R.T.(*testing.T), func(t *testing.T) {
+				def := time.Duration(c.N) * time.Millisecond
+				ch := cache.New[string, int](def, time.Duration(c.DelayMs)*time.Millisecond+time.Duration(c.DelayMs)*317*time.Nanosecond)
+				defer ch.VerifStopCleanup()
+				runs := 0
+				fn := func() int { runs++; return c.First + (runs-1)*10 }
+				var deadline time.Time // zero: nothing memoized
+				forever := false
+				memo := 0
+				for i, gap := range c.WorkMs {
+					time.Sleep(time.Duration(gap) * time.Microsecond)
+					now := time.Now()
+					if !forever && !deadline.IsZero() && now.Equal(deadline) {
+						time.Sleep(time.Nanosecond) // never observe exactly at the deadline
+						now = time.Now()
+					}
+					live := forever || (!deadline.IsZero() && now.Before(deadline))
+					before := runs
+					got := gogu.Once[string, int, int](ch, fn)
+					ran := runs - before
+					switch {
+					case live && ran != 0:
+						failSig, failMsg = "ran-although-memoized", fmt.Sprintf("Once (expiry %v, cleanup %dms): call %d at +%v ran the callback although the entry memoized earlier lives until %v", def, c.DelayMs, i+1, now.Sub(time.Time{}), deadline)
+						return
+					case !live && ran != 1:
+						failSig, failMsg = "count-after-expiry", fmt.Sprintf("Once (expiry %v, cleanup %dms): call %d ran the callback %d times with no live memo (gaps %v us)", def, c.DelayMs, i+1, ran, c.WorkMs)
+						return
+					}
+					if ran == 1 {
+						memo = got
+						if def > 0 {
+							deadline = time.Now().Add(def)
+						} else {
+							forever = true
+						}
+					}
+					if got != memo {
+						failSig, failMsg = "value-after-expiry", fmt.Sprintf("Once (expiry %v, cleanup %dms): call %d returned %d, the live memo is %d (gaps %v us)", def, c.DelayMs, i+1, got, memo, c.WorkMs)
+						return
+					}
+				}
+			})
+			if failSig != "" {
+				fail(failSig, "%s", failMsg)
+				return
+			}
+			nontrivial = len(c.WorkMs) >= 3
 		case "Retry":
 			calls := 0
 			var lastErr error
@@ -307,6 +360,18 @@ func TestProp(t *testing.T) {
 				n++
 			}
 		}
+		// Once on expiring caches: expiry {5ms, 0 (never), -1 (never)} x cleanup {none, 2ms} x gap scripts
+		gapSets := [][]int{{0, 1000, 1000}, {0, 1000, 4500, 1000, 1000}, {0, 6001, 100, 100}, {0, 2500, 2501, 2502, 100}, {0, 12001, 1, 5003, 5003, 7}, {0, 100, 100, 100, 100, 100, 100, 100, 100, 20000, 100}}
+		for _, def := range []int{5, 0, -1} {
+			for _, cl := range []int{0, 2} {
+				for _, gs := range gapSets {
+					for _, first := range []int{10, 0} {
+						emit(Case{Fn: "OnceExp", N: def, DelayMs: cl, WorkMs: gs, First: first})
+						n++
+					}
+				}
+			}
+		}
 		pats := patterns(8)
 		for nn := -2; nn <= 8; nn++ {
 			for _, p := range pats {
@@ -328,6 +393,6 @@ func TestProp(t *testing.T) {
 				}
 			}
 		}
-		r.Exhaustive("After/Before: n in -2..8 x calls 0..12 x counter types; Once: calls 0..12 x first result {10, 0 (zero value), -1, 1} for int, bool and string results; Retry and RetryWithDelay: n in -2..8 x ALL success/failure patterns of length<=8 (delays 1/7/50 ms, virtual time; patterns of length<=6 also with six schedules of time spent inside the attempts)", n)
+		r.Exhaustive("After/Before: n in -2..8 x calls 0..12 x counter types; Once on expiring caches in virtual time (expiry 5ms/never x cleanup none/2ms x 6 gap scripts: one run per lifetime of the memo); Once: calls 0..12 x first result {10, 0 (zero value), -1, 1} for int, bool and string results; Retry and RetryWithDelay: n in -2..8 x ALL success/failure patterns of length<=8 (delays 1/7/50 ms, virtual time; patterns of length<=6 also with six schedules of time spent inside the attempts)", n)
 	}, run)
 }
